@@ -14,7 +14,8 @@ Placements
     stubs-pkg   sp0/p/{__init__.py, m.py}, sp1/p-stubs/{__init__.pyi, m.pyi}, find_stubs_package=True   -> p.m
     top-module  p.py + p.pyi in a search path                         merged module p       (_load_package)
 Every package placement additionally holds the same pair two levels down (p/sub/deep.py + deep.pyi; for stubs-pkg
-p-stubs/sub/__init__.pyi + p-stubs/sub/deep.pyi): its merged module p.sub.deep is judged the same way ("nested:" kinds).
+p-stubs/sub/__init__.pyi + p-stubs/sub/deep.pyi): its merged module p.sub.deep is judged the same way ("nested:" kinds),
+and once more below a sub-package whose __init__ exists only as a stub (p/ext/__init__.pyi + impl.py + impl.pyi -> p.ext.impl).
 
 Clauses (Fail.clause)
     total            loading/merging raised (any exception)
@@ -116,6 +117,10 @@ def layout_for(case) -> tuple[dict, dict]:
     # every package placement also holds the same pair two levels down: p/sub/deep.py + deep.pyi (for the -stubs
     # placement the stubs are p-stubs/sub/deep.pyi below a stub-only sub-package p-stubs/sub/__init__.pyi)
     deep = {"__init__.py": "", "deep.py": r_deep, "deep.pyi": s}
+    # ... and once more inside a sub-package whose __init__ exists only as a stub: p/ext/__init__.pyi + impl.py + impl.pyi
+    wild_ext = wild == "all"
+    common["ext"] = {"__init__.pyi": "", "impl.py": gp.render_module(pair["R"], "R", TOP, wildcard=imports if wild_ext else False), "impl.pyi": s}
+    opts["wild_ext"] = wild_ext
     if placement == "sibling":
         paths = [{TOP: {"__init__.py": "", "m.py": r, "m.pyi": s, **common, "sub": deep}}]
         return {"paths": paths, "extra": None, "pth": None}, {**opts, "target": "m"}
@@ -133,7 +138,7 @@ def layout_for(case) -> tuple[dict, dict]:
         return {"paths": paths, "extra": None, "pth": None}, {**opts, "target": "m", "find_stubs_package": True}
     if placement == "top-module":
         paths = [{f"{TOP}.py": r, f"{TOP}.pyi": s}]
-        return {"paths": paths, "extra": None, "pth": None}, {"target": None, "deep": False, "wild_primary": False, "wild_deep": False}
+        return {"paths": paths, "extra": None, "pth": None}, {"target": None, "deep": False, "wild_primary": False, "wild_deep": False, "wild_ext": False}
     raise HarnessError(f"unknown placement {placement}")
 
 
@@ -155,7 +160,7 @@ def _observe(top, target: str | None, with_deep: bool) -> dict:
     if mod is None or mod.is_alias or mod.kind.value != "module":
         obs = dict(MISSING)
     else:
-        obs = gp.observe(mod, skip=(gp.OTHER, gp.IMPL, gp.API, gp.API2, gp.CORE, "m", "s", "sub") if target is None else ())
+        obs = gp.observe(mod, skip=(gp.OTHER, gp.IMPL, gp.API, gp.API2, gp.CORE, "m", "s", "sub", "ext") if target is None else ())
         obs["file"] = _suffix(mod)
     if with_deep:
         d = find(top, "sub.deep")
@@ -164,6 +169,12 @@ def _observe(top, target: str | None, with_deep: bool) -> dict:
         else:
             obs["deep"] = gp.observe(d)
             obs["deep"]["file"] = _suffix(d)
+        e = find(top, "ext.impl")
+        if e is None:
+            obs["ext"] = dict(MISSING)
+        else:
+            obs["ext"] = gp.observe(e)
+            obs["ext"]["file"] = _suffix(e)
     return obs
 
 
@@ -262,12 +273,15 @@ def check_case(case) -> list[Fail]:
     plain = expectation(False)
     exp_primary = expectation(True) if opts["wild_primary"] else plain
     exp_deep = expectation(True) if opts["wild_deep"] else plain
+    exp_ext = expectation(True) if opts["wild_ext"] else plain
     fails: list[Fail] = []
     seen: set = set()
 
     def judge(obs: dict, how: str, exps=None, nested: str = "") -> None:
         if obs.get("deep") is not None:
             judge(obs["deep"], how + ", nested pair p.sub.deep", exps=exp_deep, nested="nested:")
+        if obs.get("ext") is not None:
+            judge(obs["ext"], how + ", pair p.ext.impl below the stub-only sub-package p/ext/__init__.pyi", exps=exp_ext, nested="nested:")
         before = len(fails)
         _judge(obs, how, *(exps or exp_primary))
         if nested:
